@@ -207,27 +207,29 @@ if exe and shim:
                                  {'family': fam, 'n': n, 'sites': own[:20]},
                                  signature='live-at-exit:' + own[0][0])
         for fam, base in fam_d.items():
-            for k in mults:
-                r = run(['-d'], base * k, n)
+            # -t (no sink file: ospec.fd == -1) takes its own route through
+            # do_reorder / the writer and is measured like -d
+            for k, dopt in [(k, o) for k in mults for o in ('-d', '-t')]:
+                r = run([dopt], base * k, n)
                 evals += 1
                 b = bound_expand(n)
-                table.append(('expand', fam, n, k, r['peak'], r['rss'], b))
+                table.append(('expand' if dopt == '-d' else 'test', fam, n, k, r['peak'], r['rss'], b))
                 ok = r['status'] == 0 and r['peak'] is not None and \
                     r['peak'] <= b and r['rss'] <= b + (24 << 20)
                 if not ok:
                     ck.violation(
-                        'decompression memory above the bound: family %s ×%d '
+                        'decompression memory above the bound: %s family %s ×%d '
                         '-n%d peak live %s rss %d bound %d status %d' %
-                        (fam, k, n, r['peak'], r['rss'], b, r['status']),
+                        (dopt, fam, k, n, r['peak'], r['rss'], b, r['status']),
                         {'family': fam, 'mult': k, 'n': n, 'peak': r['peak'],
-                         'rss': r['rss'], 'bound': b})
+                         'rss': r['rss'], 'bound': b, 'option': dopt})
                 else:
                     nontriv += 1
                 own = [(resolve(a), s) for a, s in r['sites'] if a != 'lib']
                 if own:
                     ck.violation('heap blocks allocated by lbzip2 still live '
-                                 'at exit (expand %s ×%d -n%d): %s' %
-                                 (fam, k, n, own[:5]),
+                                 'at exit (%s %s ×%d -n%d): %s' %
+                                 (dopt, fam, k, n, own[:5]),
                                  {'family': fam, 'n': n, 'sites': own[:20]},
                                  signature='live-at-exit:' + own[0][0])
     for row in table:
@@ -236,7 +238,7 @@ if exe and shim:
                          'bound'), r)) for r in table[:8]]
 ck.finish({
     'evaluations': evals, 'distinct_nontrivial': nontriv,
-    'rule': 'mode × input family × size multiple × worker count; peak live '
+    'rule': 'mode (compress, -d, -t) × input family × size multiple × worker count; peak live '
             'heap bytes from the allocation shim and ru_maxrss compared with '
             'the linear bound computed from the regenerated slot formulas; '
             'non-trivial = run succeeded within the bound',
